@@ -32,3 +32,17 @@ Theorem C01_unsound_assignability_refutes :
   check expr ty typeof s_assign (fun _ => false) (fun _ => false) (fun _ => None) [] (SAssign expr ty 1 2) = false.
 Proof. exact unsound_assignability_refutes. Qed.
 Print Assumptions C01_unsound_assignability_refutes.
+
+(* ---- non-vacuity: oracles that meet the hypotheses and a nested statement accepted by both ---- *)
+Example ex_check :
+  let typeof := fun e : nat => Some (Nat.modulo e 3) in           (* three types: 0 bool, 1 int, 2 string *)
+  let m_assign := fun a b : nat => Nat.eqb a b in
+  let s_assign := fun a b : nat => Nat.eqb a b || Nat.eqb b 0 in   (* the specification accepts more *)
+  let s := SIf nat nat 3 [SAssign nat nat 4 7; SFor nat nat 6 [SReturn nat nat [10]]] [SBlock nat nat [SIncDec nat nat 1]] in
+  (forall a b, m_assign a b = true -> s_assign a b = true) /\
+  check nat nat typeof m_assign (Nat.eqb 0) (Nat.eqb 1) (fun _ => None) [1] s = true /\
+  check nat nat typeof s_assign (Nat.eqb 0) (Nat.eqb 1) (fun _ => None) [1] s = true.
+Proof.
+  split; [|split; reflexivity].
+  intros a b H. cbv beta in *. rewrite H. reflexivity.
+Qed.
